@@ -286,6 +286,46 @@ Theorem Chain_wavefront_tilt_equals_opd_ramp :
 Proof. exact wavefront_tilt_equals_opd_ramp. Qed.
 Print Assumptions Chain_wavefront_tilt_equals_opd_ramp.
 
+(* 5. Polychromatic images (C07 o C02 over a sampled spectrum).  The loop
+       for (wavelength, weight) in spec:  propagate_dft(Wavefront(wavelength) * Pupil, ...).insert(out, weight)
+   started from a zero array: every call succeeds, and the image is, sample by sample, the weighted sum over the
+   wavelengths of the squared moduli of the monochromatic fields F(lambda) of Chain_image_of_pupil - each the transform of
+   the pupil function at its own wavelength (phasor exp(2 pi i W/lambda), sampling ratio alpha(lambda)); consequently the
+   total of the image is the weighted sum of the monochromatic totals (linearity of the intensity sum; each
+   monochromatic total is the pupil power whenever that wavelength is commensurate: Chain_energy). *)
+Theorem Chain_broadband :
+  forall (S : Scalar), is_ring S -> kernel_laws S -> forall (sq : Qc -> S)
+    (P : plane S) (g : garr bool) (pix : pixraw) (foc : option Qc) (z dur duc : Qc)
+    (shape pshape : option (Z * Z)) (os : Z) (dxr dxc : Qc) (n m Sr Sc Pr Pc : Z) (spec : list (Qc * S)),
+  plane_ok P n m -> pl_mask P = PM2 g -> 0 < n -> 0 < m ->
+  mul_pixelscale (pl_pix P) (pix_broadcast pix) = Ok (Some (dxr, dxc)) ->
+  pl_focal P = Some (FVal z) ->
+  match shape with None => (n, m) | Some s => s end = (Sr, Sc) ->
+  match pshape with None => (Sr, Sc) | Some p => p end = (Pr, Pc) ->
+  0 < Sr -> 0 < Sc -> 0 < Pr -> 0 < Pc -> 1 <= os -> Sr * os < maxsize -> Sc * os < maxsize ->
+  let F := fun (lam : Qc) (i j : Z) =>
+    let ar := ((dxr * dur) / (lam * z * zq os))%Qc in let ac := ((dxc * duc) / (lam * z * zq os))%Qc in
+    let u := i - (Sr * os) / 2 in let v := j - (Sc * os) / 2 in
+    if inE (array_extent (Pr * os) (Pc * os) 0 0) u v
+    then (sumZ n (fun x => sumZ m (fun y =>
+            (amp_at (pl_amp P) x y * kofb (pget g x y) * ke (- (opd_at (pl_opd P) x y / lam))%Qc
+             * ke (ar * zq (x - n / 2) * zq u + ac * zq (y - m / 2) * zq v)%Qc)%K))
+          * sq (qabs (ar * ac)%Qc))%K
+    else k0 in
+  exists o,
+    fold_left (fun acc lw => rbind acc (fun o' =>
+                 rbind (chain_propagate sq [P] (pwf_init (fst lw) pix foc []) dur duc shape pshape os) (fun v =>
+                 accumulate (wdata v) o' (snd lw))))
+              spec (Ok (azeros (Sr * os) (Sc * os))) = Ok o /\
+    nr o = Sr * os /\ nc o = Sc * os /\
+    (forall i j, 0 <= i < Sr * os -> 0 <= j < Sc * os ->
+       get o i j = fold_right (fun lw acc => (norm2 (F (fst lw) i j) * snd lw + acc)%K) k0 spec) /\
+    sumZ (Sr * os) (fun i => sumZ (Sc * os) (fun j => get o i j))
+    = fold_right (fun lw acc =>
+        (sumZ (Sr * os) (fun i => sumZ (Sc * os) (fun j => norm2 (F (fst lw) i j))) * snd lw + acc)%K) k0 spec.
+Proof. exact broadband_of_pupil. Qed.
+Print Assumptions Chain_broadband.
+
 (* non-vacuity: the integers with kernel 1 satisfy the hypotheses on the scalars; a 3 x 4 pupil over Z (array amplitude
    1 + i + 2 j, scalar OPD, a mask that blocks sample (0, 3), pixel scale 1/2, focal length 4) built by the
    constructor satisfies the hypotheses of Chain_image_of_pupil / Chain_tilt_plane_equals_opd_ramp; the chain runs with
@@ -347,3 +387,18 @@ Proof.
     replace (r - 0 + 1) with (r + 1) by ring. replace (c - 0 + 1) with (c + 1) by ring. rewrite H. reflexivity. }
   vm_compute. repeat split; reflexivity.
 Qed.
+
+(* the polychromatic loop on the same pupil: two wavelengths (1 with weight 2, 2 with weight 3): with kernel 1 both
+   monochromatic fields are 53 inside the window, the image is 2 * 53^2 + 3 * 53^2 there and 0 outside *)
+Example Chain_broadband_nonvacuous :
+  match exPupil with
+  | Ok P =>
+      match fold_left (fun acc lw => rbind acc (fun o' =>
+                 rbind (chain_propagate (S := ZS) (fun _ => 1) [P] (pwf_init (S := ZS) (fst lw) PixNone None [])
+                                        (Q2Qc (1 # 4)) (Q2Qc (1 # 4)) (Some (2, 3)) (Some (1, 2)) 2) (fun v =>
+                 accumulate (wdata v) o' (snd lw))))
+              [(1%Qc, 2); (Q2Qc 2, 3)] (Ok (azeros (S := ZS) 4 6)) with
+      | Ok o => get o 2 3 = 5 * (53 * 53) /\ get o 1 1 = 5 * (53 * 53) /\ get o 0 0 = 0
+      | Err _ => False end
+  | Err _ => False end.
+Proof. vm_compute. repeat split; reflexivity. Qed.
